@@ -14,6 +14,31 @@ pub const CORPUS: &[&str] = &[
     "# comment \u{3bb}\nwhile True:\n    break\n",
     "if a:\n    pass\nelif b:\n    pass\nelse:\n    pass\n",
     "lambda_ = lambda q: q * 2\nprint(lambda_(21))\n",
+    // shapes of source trees that none of the grammar-based sources has (each found missing by a seeded change or by review)
+    "if x: pass\nmatch = 1\nprint = match\nwhile z: break\n",
+    "# only a comment\n",
+    "# a\n# b\n\n# c\nx = 1  # trailing\n    # indented comment\ny = 2\n",
+    "@dec\ndef f(*args, **kw) -> int:\n    '''doc'''\n    return 1\n\ndef g():\n    pass\n",
+    "async def g():\n    await h()\n    async with a as b:\n        pass\n",
+    "x = [i for i in range(3) if i]\ny = {k: v for k, v in z}\ns = {1, 2}\n",
+    "f'{a}{b!r:>10} tail'\nb'bytes'\nr'raw\\n'\n",
+    "try:\n    pass\nexcept E as e:\n    raise\nfinally:\n    pass\n",
+    "with open(p) as f, open(q) as g:\n    pass\n",
+    "class A(B, metaclass=M):\n    x: int = 1\n    def __init__(self): pass\n",
+    "a = b if c else d\nt = 1,\nu = *v, w\nq = a + b + c + d\nw = x.y.z.k\n",
+    "x = 1\r\ny = 2\r\n",
+    "def f():\n\treturn 1\n",
+    "lst = [0, 1, 2, 3, 4, 5, 6, 7, 8, 9, 10, 11, 12, 13, 14, 15, 16, 17, 18, 19, 20, 21, 22, 23, 24, 25, 26, 27, 28, 29, 30, 31, 32, 33, 34, 35, 36, 37, 38, 39]\n",
+    "((((((((1))))))))\nf(g(h(i(j(k(1))))))\n",
+    "match x:\n    case 1:\n        pass\n    case _:\n        pass\n",
+    "x = 1;y = 2; z = 3\n",
+    "\n\n\n",
+    "   \n",
+    "global g\ndel a\nassert b, 'm'\n",
+    "\u{f1} = '\u{e9}'\n\u{65e5}\u{672c} = 1\n",
+    "x = 1",
+    "def a() -> int:\n    pass\ndef b():\n    pass\ndef c() -> str:\n    pass\n",
+    "s = 'a\\nb\\\\c'\nt = \"\"\"multi\nline\"\"\"\n",
 ];
 
 const IDENTS: &[&str] = &["a", "b", "foo", "bar", "x1", "self", "n", "\u{3b1}\u{3b2}"];
